@@ -406,7 +406,13 @@ class Check(PropertyCheck):
         'the blocks and of a leaf is not modelled (see boundary note in the evidence)',
         'Python str.split/replace/index, set operators and their precedence as transcribed in Model/Einsum.v '
         '(characters as 8-bit codes: the enumerated and malformed strings are ASCII)',
-        'floating point: block and vector entries are small integers, every sum is exact in float32',
+        'floating point: block and vector entries are small integers (dtype cases: half-integers, or integers + '
+        'k*2^-31 in 64-bit dtypes), every product and sum is exact in the dtypes used; the dtype cases are compared '
+        'with the Z model through the numerators (bilinearity of einsum: real and imaginary parts of the blocks and of '
+        'the leaves are evaluated separately by the model and recombined by the harness)',
+        'dtype of einsum(subscripts, blocks, leaf) = jnp.promote_types(blocks dtype, leaf dtype) (JAX, independent of '
+        'furax); the model has no dtypes: result dtypes and the absence of casts are checked by the oracle only '
+        '(NumPy float64/complex128 reference on the exact values)',
         'correspondence harness (harness/c14.py): real _get_transposed_subscripts / constructor / mv / .T on the '
         'enumerated strings and shapes; NumPy einsum as the independent reference of the oracle',
         'jax.tree.flatten/map leaf order (sorted dict keys) for pytrees of leaves and of block arrays',
@@ -685,8 +691,17 @@ class Check(PropertyCheck):
             'ranks). values: every string of the full scope that the specification accepts and jnp.einsum accepts, '
             'with letter dimensions over {2,3} and ellipsis shapes (), (2), (3,2) for blocks/leaf (1-2 deterministic picks '
             'per string; quick: every 3rd string, thorough: all), as bare leaf / list / dict / nested pytrees, shared block '
-            'array or one block array per leaf. Non-trivial: batches containing an accepted string, malformed strings, '
-            'all value cases.'
+            'array or one block array per leaf. ranks: the default string (through the default constructor argument and '
+            'explicitly), its transpose and 5 named strings with every leaf rank 1-4 (the ellipsis stands for 0-3 axes) x '
+            'size profiles all-2 / all-3 / two mixed ones in which an ellipsis axis has the size of the contracted '
+            'letter x blocks carrying 0-3 of the ellipsis axes, plus every accepted string with an ellipsis in the '
+            "leaf's subscript (quick: every 4th) with rank, profile and blocks-ellipsis rank rotating; single leaf, "
+            'list with leaves of two ranks (shared block), dict (one block per leaf). dtypes: blocks x leaves over '
+            '{int32, float32, complex64}^2 and, under jax_enable_x64, the pairs with an int64/float64/complex128 side, x 6 '
+            'layouts (single leaf or list/dict/nested pytree with mixed leaf dtypes, shared block or one block per leaf '
+            'with mixed block dtypes) x 4 strings (quick: one per combination, rotating); entries are half-integers '
+            '(float/complex dtypes, imaginary parts included) or integers + {1,2,3}*2^-31 (64-bit dtypes), compared '
+            'exactly. Non-trivial: batches containing an accepted string, malformed strings, all value cases.'
         )
 
     def distribution(self, cases):
